@@ -33,11 +33,11 @@ def showErr : Err → String
   | .decoder => "E:dec"
   | .other => "E:other"
 
-def doOp (fuel : Nat) (op : String) (s : DecSt) : Except Err (String × DecSt) :=
-  let wrap {α : Type} (p : Prog α) (f : α → String) : Except Err (String × DecSt) :=
-    match runW p s with
-    | .ok (a, s') => .ok (f a, s')
-    | .error e => .error e
+def doOp (fuel : Nat) (op : String) (s : DecSt) : Except (Err × DecSt) (String × DecSt) :=
+  let wrap {α : Type} (p : Prog α) (f : α → String) : Except (Err × DecSt) (String × DecSt) :=
+    match runWS p s with
+    | (.ok a, s') => .ok (f a, s')
+    | (.error e, s') => .error (e, s')
   match op with
   | "pk" => wrap peekType toString
   | "ru" => wrap readUnsigned toString
@@ -52,14 +52,16 @@ def doOp (fuel : Nat) (op : String) (s : DecSt) : Except Err (String × DecSt) :
   | "rms" => wrap readMapStart (fun (n, i) => s!"{n}/{i}")
   | "rbk" => wrap readBreak (fun _ => "ok")
   | "sk" => wrap (skipItem fuel) (fun _ => "ok")
-  | _ => .error .other
+  | _ => .error (.other, s)
 
-def runOps (fuel : Nat) : List String → DecSt → List String → List String
+/-- `cont`: the session goes on after an end-of-input error (kinds `s+ f+ u+`), on the state the throw left behind -/
+def runOps (fuel : Nat) (cont : Bool) : List String → DecSt → List String → List String
   | [], _, acc => acc.reverse
   | op :: ops, s, acc =>
     match doOp fuel op s with
-    | .ok (r, s') => runOps fuel ops s' (r :: acc)
-    | .error e => (showErr e :: acc).reverse
+    | .ok (r, s') => runOps fuel cont ops s' (r :: acc)
+    | .error (e, s') =>
+      if cont && e == .end_ then runOps fuel cont ops s' (showErr e :: acc) else (showErr e :: acc).reverse
 
 def handle (args : List String) : String :=
   match args with
@@ -67,9 +69,9 @@ def handle (args : List String) : String :=
     match parseInput spec with
     | none => "bad-input"
     | some bs =>
-      let s := if kind == "u" then DecSt.unreadable else DecSt.ofBytes bs
+      let s := if kind.startsWith "u" then DecSt.unreadable else DecSt.ofBytes bs
       let fuel := 3 * bs.length + 2
-      let rs := runOps fuel (ops.splitOn ",") s []
+      let rs := runOps fuel (kind.endsWith "+") (ops.splitOn ",") s []
       "M " ++ joinWith ";" rs
   | _ => "bad-op"
 
